@@ -136,6 +136,8 @@ def run(ctx):
     ctx.rule("C03.wrap-spec", "object / NumPy / SymPy _wrap_result summary (projection class, coordinate <- result column | stored group) equals the specification derived from the `returns` shape")
     ctx.rule("C03.wrap-awkward", "VectorAwkward._wrap_result summary (record name, coordinate fields, carried fields, depth_limit) equals the specification for every field spelling set")
 
+    _duck_typed_kernels(ctx)
+
     # ---- (1) who may call
     n_sites = 0
     for path in all_source_files(ctx.repo):
@@ -277,3 +279,74 @@ def run(ctx):
     ctx.analysed["wrap_cases_awkward"] = total
     ctx.decline("NumPy/Awkward broadcasting of scalars and single objects against arrays; ak.transform / ak.zip preserving list structure and option types")
     ctx.decline("handler selection for mixed-backend operands: decided under C05")
+
+
+_KERNEL_NODES = {
+    "FunctionDef", "arguments", "arg", "Return", "Assign", "Expr", "Name", "Load", "Store", "Constant", "Tuple", "Attribute", "Call", "keyword",
+    "BinOp", "Add", "Sub", "Mult", "Div", "Mod", "Pow", "BitAnd", "BitOr", "UnaryOp", "USub", "UAdd", "Compare", "Eq", "NotEq", "Lt", "Gt", "LtE", "GtE",
+}
+_WHY = {
+    "AugAssign": "an augmented assignment mutates a NumPy/Awkward operand in place where it rebinds a Python number",
+    "Invert": "~ is logical negation on boolean arrays but integer complement on a Python bool (~True == -2, truthy)",
+    "Not": "`not` takes the truth value of a whole array (ambiguous / wrong element-wise)",
+    "BoolOp": "`and`/`or` take the truth value of a whole array instead of combining element-wise",
+    "IfExp": "a conditional expression branches on the truth value of a whole array",
+    "If": "an if statement branches on the truth value of a whole array",
+    "For": "a loop over values is not element-wise on arrays",
+    "While": "a loop over values is not element-wise on arrays",
+    "Subscript": "indexing means different things for numbers, arrays and records",
+}
+
+
+def _duck_typed_kernels(ctx):
+    """every compute kernel reachable from a dispatch table stays in the duck-typed fragment the package documents"""
+    import types
+
+    from ..loader import fn_ast, fn_env, fn_where, link
+    from ..entries import all_entries
+
+    ctx.rule("C03.duck-typed-kernels",
+             "every function reachable from a dispatch_map entry uses only constructs that mean the same for Python numbers, NumPy arrays and Awkward arrays "
+             "(the restriction stated in vector/_compute/*/__init__.py): assignments to plain names and one return; + - * / % ** & |, unary minus, single "
+             "comparisons, calls with the values as arguments; no augmented assignment, ~, not, and/or, conditional, chained comparison, loop or indexing")
+    L = link(ctx.repo)
+    seen, todo = set(), []
+    for e in all_entries(L):
+        if e.fn not in seen:
+            seen.add(e.fn)
+            todo.append(e.fn)
+    n = 0
+    while todo:
+        fn = todo.pop()
+        node = fn_ast(fn)
+        env = fn_env(fn)
+        n += 1
+        bad = []
+        for sub in ast.walk(node):
+            k = type(sub).__name__
+            if k not in _KERNEL_NODES:
+                bad.append((getattr(sub, "lineno", node.lineno), k, _WHY.get(k, "outside the duck-typed fragment")))
+            elif isinstance(sub, ast.Compare) and len(sub.ops) != 1:
+                bad.append((sub.lineno, "chained comparison", "a < b < c is `and` of two comparisons: truth value of a whole array"))
+            elif isinstance(sub, ast.Assign) and not all(isinstance(t, ast.Name) or (isinstance(t, ast.Tuple) and all(isinstance(x, ast.Name) for x in t.elts)) for t in sub.targets):
+                bad.append((sub.lineno, "store into an attribute/item", "kernels only bind local names"))
+            elif isinstance(sub, ast.Expr) and not (isinstance(sub.value, ast.Constant) and isinstance(sub.value.value, str)):
+                bad.append((sub.lineno, "expression statement", "a call evaluated for its side effect"))
+            if isinstance(sub, ast.Call):
+                f = sub.func
+                tgt = None
+                try:
+                    if isinstance(f, ast.Name):
+                        tgt = env.get(f.id)
+                    elif isinstance(f, ast.Attribute) and isinstance(f.value, ast.Name):
+                        base = env.get(f.value.id)
+                        tgt = getattr(base, f.attr, None) if base is not None else None
+                except Exception:  # noqa: BLE001
+                    tgt = None
+                if isinstance(tgt, types.FunctionType) and tgt not in seen and (tgt.__module__ or "").startswith("vector._compute"):
+                    seen.add(tgt)
+                    todo.append(tgt)
+        name = f"{(fn.__module__ or '').replace('vector._compute.', '')}.{fn.__qualname__}"
+        ctx.ob("C03.duck-typed-kernels", name, not bad,
+               "; ".join(f"line {ln}: {k} - {why}" for ln, k, why in bad[:3]), {"constructs": [[ln, k] for ln, k, _ in bad]}, fn_where(fn))
+    ctx.anchor("compute kernels examined", n, 2400)
